@@ -168,6 +168,38 @@ def main(argv):
                                 {"scenario": {kk: vv for kk, vv in sc.items() if not kk.startswith("_")}, "faults": list(w), "call": k,
                                  "observed": got, "expected": wv, "request_ids": rids}, key=key)
                     break
+    # ---- v3 sessions: a datagram failing any of the user / authoritative engine id / message id / request-id tests is skipped and
+    # the genuine reply behind it is delivered (the acceptance condition itself is the subject of C10's theorems)
+    V3F = {"msgid": {"msgid": "same+1"}, "msgid-2^31": {"msgid": "same-2147483648"}, "rid": {"rid": "same+1"}, "rid+2^32": {"rid": "same+4294967296"},
+           "user": {"user": b"other".hex()}, "user-ext": {"user": b"u0x".hex()}, "usm-engine": {"engine": "80001f8880ffffffff", "ctx_engine": "80001f8880a1b2c3d4"},
+           "usm-engine-ext": {"engine": "80001f8880a1b2c3d400", "ctx_engine": "80001f8880a1b2c3d4"}, "both-engines": {"engine": "80001f8880ffffffff"}}
+    v3scs = []
+    for mode in ("sync", "async"):
+        steps = []
+        for k, (name, f) in enumerate(V3F.items()):
+            bad = dict({"vbs": value_vb(500 + k).hex()}, **f)
+            steps.append({"op": "get", "args": ["1.3.6.1.9.%d" % k], "replies": [[bad, {"vbs": value_vb(k).hex()}]], "_name": name})
+            steps.append({"op": "get", "args": ["1.3.6.1.9.%d" % k], "replies": [[bad]], "_name": name + " (alone)"})
+        v3scs.append({"version": "v3", "mode": mode, "timeout": 0.03, "steps": steps,
+                      "v3": {"user": "u0", "auth": None, "priv": None, "engine_id": "80001f8880a1b2c3d4", "agent_engine_id": "80001f8880a1b2c3d4", "boots": 1, "time": 1}})
+    res3, log3 = vf.run_api_worker("C04", {"scenarios": [dict(sc, steps=[{kk: vv for kk, vv in st.items() if not kk.startswith("_")} for st in sc["steps"]]) for sc in v3scs]})
+    if res3 is None:
+        c.errors.append("API worker failed: " + log3[-1500:])
+    else:
+        for sc, rec in zip(v3scs, res3["records"]):
+            if "driver_error" in rec:
+                c.errors.append("API driver error: " + rec["driver_error"])
+                continue
+            for k, (st, out) in enumerate(zip(sc["steps"], rec["steps"])):
+                c.count(("v3", sc["mode"], st["_name"]), True)
+                got = ("RET " + out["value"]) if out["kind"] == "RET" else out["exc"]
+                want = "TimeoutError" if st["_name"].endswith("(alone)") else "RET int:%d" % (1000 + k // 2)
+                if got != want:
+                    c.violation("v3/%s: a reply with a wrong %s %s; the call gave %s, expected %s"
+                                % (sc["mode"], st["_name"].replace(" (alone)", ""), "was delivered" if got.startswith("RET int:15") else "disturbed the wait", got, want),
+                                {"scenario": dict(sc, steps=[{kk: vv for kk, vv in st.items() if not kk.startswith("_")}]), "observed": got, "expected": want},
+                                key="v3-mismatch-delivered:" + st["_name"].split(" ")[0] if got.startswith("RET") else "v3-outcome:" + got)
+
     # ---- model correspondence on synthetic arrival lists (the receive loop itself), through the codec harness decoders
     lines, meta = [], []
     for _ in range(20000 if thorough else 4000):
